@@ -42,6 +42,7 @@ type Outcome struct {
 	SimSeconds float64          `json:"sim_seconds,omitempty"`
 	Sample     interface{}      `json:"sample,omitempty"`
 	Harness    string           `json:"harness,omitempty"` // non-empty: harness trouble (exit 2), never a violation
+	Poisoned   bool             `json:"poisoned,omitempty"` // the worker process must not be reused (leaked goroutines)
 	Log        []string         `json:"log,omitempty"`     // event log (replay / selftest only)
 }
 
@@ -77,6 +78,10 @@ type Check struct {
 	// captured stderr to a signature.
 	DeathSig func(stderr string, cs json.RawMessage) (sig, msg string)
 	MemLimit uint64 // address-space limit of a worker process (0: 6 GiB)
+	// RaceSeeds, when set, adds a second leg executed by a binary built with
+	// -race (VERIF_RACE_BIN): a data race report kills the worker (halt_on_error)
+	// and is classified by DeathSig.
+	RaceSeeds func(tier string) int
 	Workers  int // 0: default
 }
 
@@ -368,8 +373,11 @@ func (t *tailBuffer) String() string {
 	return string(t.buf)
 }
 
-func spawn(role, id, tier string, root uint64, extraEnv ...string) (*workerProc, error) {
-	cmd := exec.Command(os.Args[0], "-test.run", "^TestEntry$", "-test.timeout", "0", "-test.cpu", "1", "-test.count", "1")
+func spawn(bin, role, id, tier string, root uint64, extraEnv ...string) (*workerProc, error) {
+	if bin == "" {
+		bin = os.Args[0]
+	}
+	cmd := exec.Command(bin, "-test.run", "^TestEntry$", "-test.timeout", "0", "-test.cpu", "1", "-test.count", "1")
 	cmd.Env = append(os.Environ(), "VERIF_ROLE="+role, "VERIF_CHECK="+id, "VERIF_TIER="+tier, "VERIF_ROOT="+strconv.FormatUint(root, 10))
 	cmd.Env = append(cmd.Env, extraEnv...)
 	w := &workerProc{cmd: cmd, stderr: &tailBuffer{}}
@@ -427,75 +435,107 @@ func runParent(c *Check, tier string, root uint64) int {
 		nw = seeds
 	}
 	known := loadKnown()
-
-	var mu sync.Mutex
-	next := 0
-	var results []*workerResult
 	type death struct {
 		seed   uint64
 		stderr string
+		leg    string
 	}
+	var results []*workerResult
 	var deaths []death
 	harnessTrouble := ""
 	deadline := start.Add(maxWall)
-	takeSeed := func() (uint64, bool) {
-		mu.Lock()
-		defer mu.Unlock()
-		if next >= seeds || time.Now().After(deadline) || harnessTrouble != "" {
-			return 0, false
+	next := 0
+	runPool := func(bin, leg string, nseeds, nw int, seedOffset int) {
+		var mu sync.Mutex
+		next = 0
+		takeSeed := func() (uint64, bool) {
+			mu.Lock()
+			defer mu.Unlock()
+			if next >= nseeds || time.Now().After(deadline) || harnessTrouble != "" {
+				return 0, false
+			}
+			s := seedFor(root, seedOffset+next)
+			next++
+			return s, true
 		}
-		s := seedFor(root, next)
-		next++
-		return s, true
-	}
-	var wg sync.WaitGroup
-	for i := 0; i < nw; i++ {
-		wg.Add(1)
-		go func() {
-			defer wg.Done()
-			var w *workerProc
-			defer func() {
-				if w != nil {
-					w.stdin.Close()
-					w.cmd.Wait()
-				}
-			}()
-			for {
-				seed, ok := takeSeed()
-				if !ok {
-					return
-				}
-				if w == nil {
-					var err error
-					w, err = spawn("worker", c.ID, tier, root)
-					if err != nil {
-						mu.Lock()
-						harnessTrouble = "cannot start worker: " + err.Error()
-						mu.Unlock()
+		var wg sync.WaitGroup
+		for i := 0; i < nw; i++ {
+			wg.Add(1)
+			go func() {
+				defer wg.Done()
+				var w *workerProc
+				defer func() {
+					if w != nil {
+						w.stdin.Close()
+						w.cmd.Wait()
+					}
+				}()
+				for {
+					seed, ok := takeSeed()
+					if !ok {
 						return
 					}
-				}
-				fmt.Fprintf(w.stdin, "%d\n", seed)
-				r, err := w.readResult()
-				if err != nil {
-					// worker died while executing this seed
-					w.cmd.Wait()
+					if w == nil {
+						var err error
+						w, err = spawn(bin, "worker", c.ID, tier, root, "VERIF_LEG="+leg)
+						if err != nil {
+							mu.Lock()
+							harnessTrouble = "cannot start worker: " + err.Error()
+							mu.Unlock()
+							return
+						}
+					}
+					fmt.Fprintf(w.stdin, "%d\n", seed)
+					r, err := w.readResult()
+					if err != nil {
+						// worker died while executing this seed
+						w.cmd.Wait()
+						mu.Lock()
+						deaths = append(deaths, death{seed, w.stderr.String(), leg})
+						mu.Unlock()
+						w = nil
+						continue
+					}
 					mu.Lock()
-					deaths = append(deaths, death{seed, w.stderr.String()})
+					if leg != "" {
+						st := map[string]int64{}
+						for k, v := range r.Outcome.Stats {
+							st[leg+"_leg_"+k] = v
+						}
+						r.Outcome.Stats = st
+						r.Outcome.Stats[leg+"_leg_runs"] = 1
+					}
+					results = append(results, r)
+					if r.Outcome.Harness != "" && harnessTrouble == "" {
+						harnessTrouble = fmt.Sprintf("seed %d: %s", r.Seed, r.Outcome.Harness)
+					}
 					mu.Unlock()
-					w = nil
-					continue
+					if r.Outcome.Poisoned {
+						w.stdin.Close()
+						w.cmd.Process.Kill()
+						w.cmd.Wait()
+						w = nil
+					}
 				}
-				mu.Lock()
-				results = append(results, r)
-				if r.Outcome.Harness != "" && harnessTrouble == "" {
-					harnessTrouble = fmt.Sprintf("seed %d: %s", r.Seed, r.Outcome.Harness)
-				}
-				mu.Unlock()
-			}
-		}()
+			}()
+		}
+		wg.Wait()
 	}
-	wg.Wait()
+	runPool("", "", seeds, nw, 0)
+	mainNext := next
+	if rb := os.Getenv("VERIF_RACE_BIN"); rb != "" && c.RaceSeeds != nil {
+		rs := c.RaceSeeds(tier)
+		if s := os.Getenv("VERIF_RACE_SEEDS"); s != "" {
+			if n, err := strconv.Atoi(s); err == nil {
+				rs = n
+			}
+		}
+		if rs > 0 {
+			os.Setenv("GORACE", "halt_on_error=1")
+			runPool(rb, "race", rs, nw, 0)
+		}
+	}
+	next = mainNext
 	if harnessTrouble != "" {
 		fmt.Fprintf(os.Stderr, "HARNESS-TROUBLE check=%s %s\n", c.ID, harnessTrouble)
 		return 2
@@ -507,6 +547,7 @@ func runParent(c *Check, tier string, root uint64) int {
 		v      Violation
 		replay string
 		seed   uint64
+		leg    string
 	}
 	var fresh []vrec
 	knownHits := map[string]int{}
@@ -543,7 +584,7 @@ func runParent(c *Check, tier string, root uint64) int {
 			if i < len(r.Replays) {
 				rp = r.Replays[i]
 			}
-			fresh = append(fresh, vrec{v, rp, r.Seed})
+			fresh = append(fresh, vrec{v, rp, r.Seed, ""})
 		}
 	}
 	// worker deaths: re-run the seed alone in a fresh process to classify
@@ -554,6 +595,9 @@ func runParent(c *Check, tier string, root uint64) int {
 		}
 		dcs := c.Gen(simrt.NewRand(d.seed), tier)
 		sig, msg := c.DeathSig(d.stderr, dcs)
+		if d.leg != "" {
+			stats[d.leg+"_leg_runs"]++
+		}
 		if sig == "" {
 			fmt.Fprintf(os.Stderr, "HARNESS-TROUBLE check=%s worker died on seed %d (unclassified):\n%s\n", c.ID, d.seed, tail(d.stderr, 4000))
 			return 2
@@ -571,7 +615,7 @@ func runParent(c *Check, tier string, root uint64) int {
 		path := filepath.Join(replayDir(), fmt.Sprintf("%s-%d-death.json", c.ID, d.seed))
 		b, _ := json.MarshalIndent(rf, "", " ")
 		os.WriteFile(path, b, 0644)
-		fresh = append(fresh, vrec{v, path, d.seed})
+		fresh = append(fresh, vrec{v, path, d.seed, d.leg})
 	}
 
 	// confirm fresh violations by replaying in a fresh process
@@ -589,8 +633,12 @@ func runParent(c *Check, tier string, root uint64) int {
 		ok := false
 		if f.replay != "" {
 			for try := 0; try < 3 && !ok; try++ {
-				cmd := exec.Command(os.Args[0], "-test.run", "^TestEntry$", "-test.timeout", "0", "-test.cpu", "1", "-test.count", "1")
-				cmd.Env = append(os.Environ(), "VERIF_ROLE=replay", "VERIF_CHECK="+c.ID, "VERIF_REPLAY="+f.replay)
+				bin := os.Args[0]
+				if f.leg == "race" {
+					bin = os.Getenv("VERIF_RACE_BIN")
+				}
+				cmd := exec.Command(bin, "-test.run", "^TestEntry$", "-test.timeout", "0", "-test.cpu", "1", "-test.count", "1")
+				cmd.Env = append(os.Environ(), "VERIF_ROLE=replay", "VERIF_CHECK="+c.ID, "VERIF_REPLAY="+f.replay, "VERIF_LEG="+f.leg)
 				outb, _ := cmd.CombinedOutput()
 				if bytes.Contains(outb, []byte("REPRODUCED property="+f.v.Property+" sig="+f.v.Sig)) && !bytes.Contains(outb, []byte("NOT-REPRODUCED property="+f.v.Property+" sig="+f.v.Sig)) {
 					ok = true
@@ -684,6 +732,9 @@ func runParent(c *Check, tier string, root uint64) int {
 // allocates from a number read off a stream kills the worker (an observation)
 // instead of the sandbox.
 func limitMemory(c *Check) {
+	if os.Getenv("VERIF_LEG") == "race" {
+		return // the race detector's shadow memory needs the address space
+	}
 	if os.Getenv("VERIF_ROLE") == "" || os.Getenv("VERIF_ROLE") == "parent" || os.Getenv("VERIF_ROLE") == "selftest" {
 		return
 	}
